@@ -1,7 +1,7 @@
 (* C17 — Ordinal suffixes are judged correctly for every number.
    This file pins the statements; it contains nothing but `exact` (+ non-vacuity Examples by vm_compute). *)
 Require Import Base Overlap Suggestion Tables_number Number NumberArith NumberLex NumberPasses NumberProofs.
-Require Import C17Tails C17TailsProofs C17Multi C17Texts C17MultiText C17Unreach C17Later C17LaterProofs.
+Require Import C17Tails C17TailsProofs C17Multi C17Texts C17MultiText C17Unreach C17Later C17LaterProofs C17Bounds C17Order C17LexBound.
 From Coq Require Import String.
 From Coq Require Import List NArith Bool.
 Import ListNotations.
@@ -452,6 +452,81 @@ Check C17_lint_list_doc :
   /\ (forall T', doc_final U ut et (mtext l post) = Ok T' -> filter is_number T' = mlist 0 l)
   /\ (forall r, lint_doc U ut et (mtext l post) = Ok r -> r = Some (mexpected 0 l)).
 Print Assumptions C17_lint_list_doc.
+
+(* PHASE 7 — freedom from panics of the later passes.  `tokok n l`: every coordinate of every token of l is <= n and
+   every Word token has start <= end.  For EVERY source and EVERY token list inside the source, condense_ellipsis,
+   condense_latin and the metadata loop return (no Span::get_content / Span::len / index / slice / unwrap panic)
+   and the result is inside the source again.  No hypothesis. *)
+Theorem C17_later_passes_total :
+  forall (src : text) (toks : list token),
+  tokok (length src) toks ->
+  exists toks', later_passes src toks = Ok toks' /\ tokok (length src) toks'.
+Proof. exact later_passes_total. Qed.
+Check C17_later_passes_total :
+  forall (src : text) (toks : list token),
+  tokok (length src) toks ->
+  exists toks', later_passes src toks = Ok toks' /\ tokok (length src) toks'.
+Print Assumptions C17_later_passes_total.
+
+(* The first six passes keep the token coordinates in order and inside the text.  `J n l`: the token starts are
+   sorted and every token has start <= end <= n.  For EVERY text: if the lexer's list satisfies J, so does whatever
+   condense_spaces / condense_newlines / newlines_to_breaks / condense_number_suffixes / condense_contractions /
+   condense_dotted_initialisms return (every new span takes its start from the token it replaces and its end from a
+   token at or behind it; removals keep the order).  No hypothesis. *)
+Theorem C17_six_passes_inside :
+  forall (U : uni) (ut : text -> nat) (et : text -> nat -> option nat) (src : text) (n : nat) (T0 T : list token),
+  lex_doc U ut et src = Ok T0 -> J n T0 -> doc_tokens U ut et src = Ok T -> J n T.
+Proof. exact doc_tokens_J. Qed.
+Check C17_six_passes_inside :
+  forall (U : uni) (ut : text -> nat) (et : text -> nat -> option nat) (src : text) (n : nat) (T0 T : list token),
+  lex_doc U ut et src = Ok T0 -> J n T0 -> doc_tokens U ut et src = Ok T -> J n T.
+Print Assumptions C17_six_passes_inside.
+
+(* PlainEnglish::parse: on a text all of whose suffixes are `quiet` (lex_url, lex_email_address and lex_hostname
+   answer None, so the two sub-lexers with open tails never decide) every sub-lexer returns a length inside the
+   remaining text (lex_token_le, sub-lexer by sub-lexer), hence the token list satisfies J (length src). *)
+Theorem C17_lex_inside :
+  forall (U : uni) (ut : text -> nat) (et : text -> nat -> option nat) (src : text) (L : list token),
+  (forall j, quiet U ut et (skipn j src)) -> lex_doc U ut et src = Ok L -> J (length src) L.
+Proof. exact lex_doc_J. Qed.
+Check C17_lex_inside :
+  forall (U : uni) (ut : text -> nat) (et : text -> nat -> option nat) (src : text) (L : list token),
+  (forall j, quiet U ut et (skipn j src)) -> lex_doc U ut et src = Ok L -> J (length src) L.
+Print Assumptions C17_lex_inside.
+
+(* ... hence, TEXT level, FREEDOM FROM PANICS of the whole modelled Document::parse: for every text of the class
+   (only hypothesis ascii_laws) the document is built — lexer, the six passes, condense_ellipsis, condense_latin, the
+   metadata loop all return —, the final document has exactly the promised Number tokens, lies inside the text, and
+   the rule reports exactly the promised lints.  This is C17_lint_list_doc without "whenever it returns". *)
+Theorem C17_lint_list_total :
+  forall (U : uni) (ut : text -> nat) (et : text -> nat -> option nat),
+  ascii_laws U ->
+  forall (l : list inst) (post : text),
+  mctx_ok U l post = true ->
+  (exists T', doc_final U ut et (mtext l post) = Ok T' /\ filter is_number T' = mlist 0 l
+              /\ tokok (length (mtext l post)) T')
+  /\ lint_doc U ut et (mtext l post) = Ok (Some (mexpected 0 l)).
+Proof. exact lint_list_total. Qed.
+Check C17_lint_list_total :
+  forall (U : uni) (ut : text -> nat) (et : text -> nat -> option nat),
+  ascii_laws U ->
+  forall (l : list inst) (post : text),
+  mctx_ok U l post = true ->
+  (exists T', doc_final U ut et (mtext l post) = Ok T' /\ filter is_number T' = mlist 0 l
+              /\ tokok (length (mtext l post)) T')
+  /\ lint_doc U ut et (mtext l post) = Ok (Some (mexpected 0 l)).
+Print Assumptions C17_lint_list_total.
+
+(* non-vacuity: the text of C17_ex_later (in the class, both later passes fire): the lexer's list satisfies J, the
+   list after the six passes satisfies J and tokok *)
+Example C17_ex_total :
+  mctx_ok ascii_uni ex_later (txt ".") = true
+  /\ match lex_doc ascii_uni no_tail_url no_tail_email (mtext ex_later (txt ".")) with
+     | Ok T => Jb (length (mtext ex_later (txt "."))) T | Panic _ => false end = true
+  /\ match doc_tokens ascii_uni no_tail_url no_tail_email (mtext ex_later (txt ".")) with
+     | Ok T => Jb (length (mtext ex_later (txt "."))) T && tokokb (length (mtext ex_later (txt "."))) T
+     | Panic _ => false end = true.
+Proof. vm_compute. repeat split; reflexivity. Qed.
 
 (* the generic condense_pattern / find_all_matches of C17Later.v, at the contraction matcher, IS the
    condense_contractions of Number.v that all theorems above run *)
